@@ -30,6 +30,7 @@ FUNCTIONS = [
     "pyxel.pipelines.processor:Processor.set",
     "pyxel.pipelines.processor:Processor.get",
     "pyxel.pipelines.processor:_get_obj_att",
+    "pyxel.calibration.fitting_datatree:ModelFittingDataTree.fitness (witness layer, real pygmo)", "pyxel.calibration.calibration:Calibration.run_calibration (witness layer)",
 ]
 STUBS = [
     "np/math -> vx stand-ins in calibration.fitting_datatree, observation.parameter_values, pipelines.processor",
